@@ -265,6 +265,7 @@ def check(run):
     # chunked strings: every chunk is appended (imported from C07)
     from . import C07
     C07.check_string_accumulates(run, "R08.6")
+    C07.check_string_bytes_kept(run, "R08.6")
     analyses = check_readers(run, "R08.1")
     check_array_readers(run, "R08.1")
     check_order_independence(run, "R08.2", analyses)
